@@ -31,6 +31,7 @@ Proof. induction l as [|a t IH]; cbn; [reflexivity | rewrite IH; reflexivity]. Q
 
 Section Vote.
 Variable cap : nat.
+Variable ep : N.
 Variable lam : fev -> N.
 Variable vals : list (N * N).
 Hypothesis Hvals : vals_ok vals.
@@ -52,7 +53,7 @@ Notation decidesp := (decides node nd_cr nd_fr nd_spf fcn ws q T f0).
 Notation yesVp := (yesV node nd_cr nd_fr nd_spf fcn ws T f0).
 Notation noVp := (noV node nd_cr nd_fr nd_spf fcn ws T f0).
 Notation slot := (slot vals).
-Notation Core := (Core lam vals).
+Notation Core := (Core ep lam vals).
 Notation cache_inv := (cache_inv vals).
 
 Let ND := vals_nodup vals Hvals.
@@ -356,7 +357,7 @@ Qed.
 
 (* ---------- Election.ProcessRoot ---------- *)
 Lemma process_root_sim st es Dr k (S : root -> Prop) n f :
-  Core st es T Dr T -> cache_inv k st T T -> (forall m, In m T -> ~ is_temp k (nd_id m)) ->
+  Core st es T Dr T -> cache_inv k st T T -> (forall m, In m T -> ~ k (nd_id m)) ->
   EI (l_el st) S -> choose_atropos (l_el st) = Ok None -> In n (rts f) ->
   (f0 + 2 <= f -> forall m, In m (rts (f - 1)) -> fcn n m = true -> S (slot m (f - 1))) ->
   exists res c' el', process_root cap st (slot n f) = (res, set_el (set_fcc st c') el') /\
@@ -379,10 +380,10 @@ Proof.
       apply (slot_inj vals T n1 n f1 f HwfT (rts_in _ _ Hn1) HnT) in E as [-> ->]. lia.
   - apply N.leb_gt in Lf. unfold observed_roots. cbn [r_id]. rewrite slot_id.
     replace (r_frame (slot n f) - 1) with (f - 1) by reflexivity.
-    destruct (frame_roots_for lam vals st es T Dr T (f - 1) C) as [ms [_ [Hms [Ems NDms]]]].
+    destruct (frame_roots_for ep lam vals st es T Dr T (f - 1) C) as [ms [_ [Hms [Ems NDms]]]].
     rewrite Ems.
     assert (Est0 : st = set_fcc st (l_fcc st)) by (destruct st; reflexivity).
-    destruct (observed_loop_map cap lam vals Hvals st es T Dr T k T T n (f - 1) C (incl_refl T) (incl_refl T) HnT (NT n HnT)
+    destruct (observed_loop_map cap ep lam vals Hvals st es T Dr T k T T n (f - 1) C (incl_refl T) (incl_refl T) HnT (NT n HnT)
                 ms (fun m Hm => rts_in _ _ (proj1 (Hms m) Hm)) st [] (ex_intro _ (l_fcc st) Est0) CI)
       as [c1 [EO CI1]].
     rewrite EO. cbn [rev app].
